@@ -21,6 +21,7 @@ const (
 
 var (
 	ErrInvalidHeight = errors.New("Hash height beyond tip")
+	ErrNotNextBlock  = errors.New("Header is not after the latest header")
 )
 
 // Block represents a block on the blockchain.
@@ -168,6 +169,13 @@ func (repo *BlockRepository) Load(ctx context.Context) error {
 func (repo *BlockRepository) Add(ctx context.Context, header *wire.BlockHeader) error {
 	repo.mutex.Lock()
 	defer repo.mutex.Unlock()
+
+	// The caller checked this against LastHash before, but the chain can have been reverted since
+	// then by the thread handling a reorg.
+	if len(repo.lastHeaders) > 0 &&
+		!repo.lastHeaders[len(repo.lastHeaders)-1].BlockHash().Equal(&header.PrevBlock) {
+		return ErrNotNextBlock
+	}
 
 	if len(repo.lastHeaders) == blocksPerKey {
 		// Save latest key
